@@ -244,6 +244,7 @@ pub fn scenario_from_bytes(data: &[u8], low_bandwidth: bool, max_ticks: usize, m
         links: [LinkCfg { latency_us: l0, fates: f0 }, LinkCfg { latency_us: l1, fates: f1 }],
         ticks,
         tail: Some(Tail { step_us: tail_step, max_us: 0, chatter }),
+        premature_acks: Vec::new(),
     };
     sc.normalize();
     sc
